@@ -21,7 +21,7 @@ def run_history(ctx, prop, seed, clients, nops, shape, binary='h', tag='c'):
     if rc not in (0, 3, 66) and not races:
         fails.append(Failure(prop, 'panic', 'conc-harness', (e or o)[-600:], replay=rep))
     st = dict(lin='', ops=0, txns=0)
-    if shape != 'lsrace':
+    if shape not in ('lsrace', 'crashshrink'):
         rc2, o2, e2 = vlib.sh('ulimit -s unlimited 2>/dev/null; exec %s conc %s' % (os.path.join(vlib.BIN, 'drv'), trace), timeout=900)
         for line in o2.splitlines():
             m = re.match(r'^N (\S+) (OK|BAD|UNKNOWN)(.*)$', line)
